@@ -196,6 +196,10 @@ def make_distance_matrix_from_adjacency_matrix(AG):
     # Convert adjacency matrix to SciPy format if needed.
     if not sps.issparse(AG) and not isinstance(AG, np.ndarray):
         AG = np.asarray(AG)
+    if sps.issparse(AG):
+        # csgraph routines reject some sparse formats (e.g. COO for graphs
+        # with fewer than 3 vertices), so work on CSR throughout
+        AG = sps.csr_matrix(AG)
 
     # Compile distance matrix of the graph based on its shortest path
     # lengths.
